@@ -837,13 +837,18 @@ class spawn(SpawnBase):
         '''This is used by the interact() method.
         '''
 
-        while self.isalive():
+        while True:
+            # Once the child has exited, keep copying what it left behind in
+            # the pty, but do not wait for anything else.
+            alive = self.isalive()
+            fds = [self.child_fd, self.STDIN_FILENO] if alive else [self.child_fd]
+            timeout = None if alive else 0
             if self.use_poll:
-                r = poll_ignore_interrupts([self.child_fd, self.STDIN_FILENO])
+                r = poll_ignore_interrupts(fds, timeout)
             else:
-                r, w, e = select_ignore_interrupts(
-                    [self.child_fd, self.STDIN_FILENO], [], []
-                )
+                r, w, e = select_ignore_interrupts(fds, [], [], timeout)
+            if not alive and self.child_fd not in r:
+                break
             if self.child_fd in r:
                 try:
                     data = self.__interact_read(self.child_fd)
